@@ -82,8 +82,11 @@ func vToTypesBoundary(counts []int) {
 }
 
 // counts around word boundaries and the documented maximum
-func VerifC18_ToTypesBoundary()  { vToTypesBoundary([]int{64, 65, 255, 256}) }
-func VerifC18T_ToTypesBoundary() { vToTypesBoundary([]int{63, 127, 128, 129, 191, 192, 193}) }
+func VerifC18_ToTypesBoundary() { vToTypesBoundary([]int{64, 65, 255, 256}) }
+func VerifC18T_ToTypesBoundary() {
+	vNoMul = true
+	vToTypesBoundary([]int{63, 127, 128, 129, 191, 192, 193})
+}
 
 // H1: registry step from a registry holding `count` types.
 func vRegistryStep(count int) {
@@ -192,4 +195,40 @@ func VerifC18_Resources() {
 // mappers, filters and queries created while few types are registered keep working after
 // the registry grew past one mask word (and, thorough, up to the documented maximum)
 func VerifC18_EarlyMappersAcrossGrowth() { vManyComponents(70) }
-func VerifC18T_EarlyMappersAtMaximum()   { vManyComponents(maskTotalBits - 2) }
+func VerifC18T_EarlyMappersAtMaximum()   { vNoMul = true; vManyComponents(maskTotalBits - 2) }
+
+// a component type registered late — when the world already has relation archetypes with
+// several (and with freed) tables, registered filters and a full history — is usable at once
+// in entities, mappers, filters and queries, and leaves everything else untouched
+type vLate struct{ X, Y uint32 }
+
+func VerifC18_LateRegistrationInUsedWorld() {
+	vMode = 0
+	W := vShapeFor(vPick("shape", 2))
+	before := len(W.w.storage.registry.Components)
+	idL := ComponentID[vLate](W.w)
+	vcheck("next-id-assigned", int(idL.id) == before && ComponentID[vLate](W.w) == idL)
+	mL := NewMap1[vLate](W.w)
+	v := vLate{vU32("x"), vU32("y")}
+	// onto an existing entity (new archetype / table next to the old ones) and back
+	e := W.e[2].h
+	vcheck("add-no-panic", !vpanics(func() { mL.Add(e, &v) }))
+	vcheck("readable-through-mapper-and-ids", mL.Get(e) != nil && *mL.Get(e) == v && W.u.Has(e, idL) && (*vLate)(W.u.Get(e, idL)) == mL.Get(e))
+	n := 0
+	q := NewFilter1[vLate](W.w).Query()
+	for q.Next() {
+		n++
+		vcheck("query-yields-it", q.Entity() == e && *q.Get() == v)
+	}
+	vcheck("query-count", n == 1 && !W.w.IsLocked())
+	f := NewFilter1[vLate](W.w).Register()
+	fresh := mL.NewEntity(&v) // a second entity in the new table, created through the registered path
+	qc := f.Query()
+	vcheck("registered-filter-counts", qc.Count() == 2)
+	qc.Close()
+	f.Unregister()
+	W.w.RemoveEntity(fresh)
+	vcheck("remove-no-panic", !vpanics(func() { mL.Remove(e) }))
+	W.checkAll("after")
+	vreach("end")
+}
